@@ -68,7 +68,7 @@ type Pod struct {
 	Del, Oos         bool
 }
 
-type Fault struct{ Kind, A, B int64 } // 1 create(t,i) 2 delete(t,i) 3 patch(t,i) 4 status(n) 5 pg-create(errkind) 6 pg-update(errkind)
+type Fault struct{ Kind, A, B int64 } // 1 create(t,i) 2 delete(t,i) 3 patch(t,i) 4 status(n) 5 pg-create(errkind) 6 pg-update(errkind); 11-14 = 1-4 for the give-up execution of handleJobError
 
 type Req struct {
 	Event    int64
@@ -95,6 +95,9 @@ type History struct {
 	Pods    []Pod
 	Pg      *int64 // nil: no PodGroup; 0 "" 1 Pending 2 Inqueue 3 Running 4 Unknown 5 Completed
 	NoQueue bool   // the job's queue is missing from the queue lister
+	// --max-requeue-num of the controller for this case: -1 (the zero value of MaxRequeueP1) = re-queue
+	// for ever, else MaxRequeueP1-1 in 0..3
+	MaxRequeueP1 int64
 	Ops     []Op
 }
 
@@ -345,7 +348,11 @@ func (w *W) History(h History) {
 	w.Status(h.Status)
 	w.Pods(h.Pods)
 	w.Opt(h.Pg)
-	w.B(!h.NoQueue)
+	q := 2 * h.MaxRequeueP1 // one token: bit 0 = queue present, the rest = maxRequeueNum + 1
+	if !h.NoQueue {
+		q++
+	}
+	w.Z(q)
 	w.Z(int64(len(h.Ops)))
 	for _, o := range h.Ops {
 		w.Op(o)
@@ -357,7 +364,8 @@ func (r *R) History() History {
 	h.Status = r.Status()
 	h.Pods = r.Pods()
 	h.Pg = r.Opt()
-	h.NoQueue = !r.B()
+	q := r.Z()
+	h.NoQueue, h.MaxRequeueP1 = q%2 == 0, q/2
 	n := int(r.Z())
 	for i := 0; i < n; i++ {
 		h.Ops = append(h.Ops, r.Op())
@@ -494,6 +502,7 @@ func pgCode(pg *scheduling.PodGroup) *int64 {
 // Obs is what is observed after one step.
 type Obs struct {
 	Err    bool
+	GaveUp bool // the request's requeue budget was used up: handleJobError sent TerminateJob and dropped it
 	Wrote  bool // a job UpdateStatus call succeeded in this step
 	Status Status
 	Cache  Status // the job status in the controller's cache
@@ -582,6 +591,8 @@ func (e *Env) Setup(h History) (ns string) {
 	ns = fmt.Sprintf("n%d", caseSeq)
 	e.BeginStep()
 	resetJobUID()
+	e.Ctl.VerifSetMaxRequeueNum(int(h.MaxRequeueP1) - 1)
+	e.Ctl.VerifResetRequeues()
 	e.dJob, e.dPG, e.jobDelivered, e.prevJob = nil, nil, false, nil
 	e.dPods = map[string]*v1.Pod{}
 	qix := e.Ctl.VerifQueueIndexer()
@@ -687,6 +698,14 @@ func (e *Env) Step(ns string, o Op) Obs {
 				e.FailPgCreate = int(f.A)
 			case 6:
 				e.FailPgUpdate = int(f.A)
+			case 11:
+				e.GiveCreate[PodName(f.A, f.B)] = true
+			case 12:
+				e.GiveDelete[PodName(f.A, f.B)] = true
+			case 13:
+				e.GivePatch[PodName(f.A, f.B)] = true
+			case 14:
+				e.GiveStatus[int(f.A)] = true
 			}
 		}
 		before := e.delaySnapshot(ns)
@@ -736,6 +755,7 @@ func (e *Env) Step(ns string, o Op) Obs {
 		time.Sleep(time.Millisecond) // one tick per step: no two timers share a deadline
 	}
 	ob := e.observe(ns, failed)
+	ob.GaveUp = e.GaveUp
 	ob.Fired = fired
 	ob.FreshBefore, ob.PgViewBefore, ob.JobFreshBefore, ob.PgFreshBefore = fresh, pgv, jobFresh, pgFresh
 	return ob
@@ -760,7 +780,14 @@ func SamePods(a, b []Pod) bool {
 // EncodeObs is the per-step encoding the model's entry produces.
 func (w *W) Obs(k int, o Obs) {
 	w.Z(int64(-100 - (k + 1)))
-	w.B(o.Err)
+	switch { // 1 = re-queued, 2 = the controller gave up on the request
+	case o.GaveUp:
+		w.Z(2)
+	case o.Err:
+		w.Z(1)
+	default:
+		w.Z(0)
+	}
 	w.B(o.Wrote)
 	w.Status(o.Status)
 	w.Status(o.Cache)
